@@ -4,6 +4,7 @@ import (
 	"bytes"
 	"encoding/json"
 	"fmt"
+	"github.com/brutella/hc/accessory"
 	"github.com/brutella/hc/db"
 	"os"
 	"path/filepath"
@@ -456,7 +457,51 @@ func c20Run(c *fw.Ctx) {
 	if c.Shard == 1%c.NShards {
 		c20Provisioned(c)
 	}
+	if c.Shard == 2%c.NShards {
+		c20ConfiguredCodes(c)
+	}
 	<-done
+}
+
+// c20ConfiguredCodes: the code check as an application meets it — through Config.Pin of a transport. A transport is
+// created exactly for the codes ValidatePin accepts (the empty string selects the default code), and the code it
+// uses for pair-setup is the configured one (read from the setup URI).
+func c20ConfiguredCodes(c *fw.Ctx) {
+	for _, code := range []string{"", "00102003", "90000001", "1234567", "123456789", "031-45-154", "0310-4515", "111-11-111", "11111111", "12345678", "0010200a", " 00102003", "00102003 ", "-0010200", "+0102003", "٠٠١٠٢٠٠٣"} {
+		c.Eval(1)
+		cas := c20CodeCase{Kind: "configured", Code: code, Sub: "transport"}
+		want, ok := c20RefValid(code)
+		if code == "" {
+			want, ok = c20RefValid("00102003")
+		}
+		dir := filepath.Join(c.Scratch, fmt.Sprintf("c20c-%d", atomic.AddInt64(&bedSeq, 1)))
+		acc := accessory.NewSwitch(accessory.Info{Name: "CodeCheck"})
+		var t interface{ XHMURI() (string, error) }
+		var err error
+		if p := guard(func() {
+			tr, e := hc.NewIPTransport(hc.Config{StoragePath: dir, Pin: code, SetupId: "ABCD"}, acc.Accessory)
+			err = e
+			if e == nil {
+				t = tr
+			}
+		}); p != nil {
+			err = fmt.Errorf("panic: %v", p)
+		}
+		switch {
+		case ok && err != nil:
+			c.Report("configured-code/valid-rejected", fmt.Sprintf("a transport configured with the valid code %q is refused: %v", code, err), cas)
+		case !ok && err == nil:
+			c.Report("configured-code/invalid-accepted", fmt.Sprintf("a transport configured with %q — not a non-trivial eight-digit code — is created", code), cas)
+		case ok:
+			uri, uerr := t.XHMURI()
+			n, _, _, _, dok := c20Decode(uri)
+			if digits := strings.ReplaceAll(want, "-", ""); uerr != nil || !dok || fmt.Sprintf("%08d", n) != digits {
+				c.Report("configured-code/other-code-in-use", fmt.Sprintf("a transport configured with %q uses another code: its setup URI %q decodes to %08d", code, uri, n), cas)
+			}
+		}
+		os.RemoveAll(dir)
+		c.Class("configured-code")
+	}
 }
 
 // c20Provisioned: a storage that was not written by this build — the files of an accessory identity as an earlier
@@ -580,14 +625,16 @@ func init() {
 	fw.Register(&fw.Check{
 		ID:    "C20",
 		Level: "model_checking",
-		Rule:  "(a) every history of length 3 (quick) / 4 (thorough) after an initial start over {restart with the same accessories, restart with changed values only, restart with an added accessory, restart with another setup code, real pair-setup of a new controller, remove a pairing, add a new pairing and add an existing pairing again through /pairings on a verified connection, application value changes} on one storage directory with the real transport; after EVERY event the advertised TXT records and the store are compared with the reference model: device id and long-term key constant (a stored controller still verifies against the original accessory key), pairings = model set, c# +1 exactly when the structure differs from the previous run, sf=1 ⇔ no controller pairing. plus a sweep over 240 structurally different accessory sets (restart same ⇒ c# unchanged, other ⇒ +1, again ⇒ unchanged). (b) ALL 10^8 eight-digit codes and all ≈12 million strings of length ≤9 over {0,9,a,-,space,non-ASCII digit}: ValidatePin accepts exactly the non-trivial eight-digit codes and formats XXX-XX-XXX; for all 10^8 codes (category 5, IP flag) and for all 256 categories × 16 flag sets × 7 setup ids × 7 boundary codes an independent base-36 decoder recovers code, category, flags and setup id from XHMURI. states = restart histories executed The alphabet also has the removal of a pairing that is not stored; the value-only restart gives a first value to a readable characteristic that had none; every history of length 3 over {restart same, restart with other values, pair-setup of a controller whose identifier is the empty string, remove pairing, restart after the files 'version' and 'configHash' were lost (configuration number then not judged)}; a start on storages provisioned elsewhere (device id in lower, upper and mixed case with its key pair and one pairing) keeps id and key and lets the paired controller verify; every history of length 2 over four symbols is repeated in storage directories named 'Lamp [1]', 'Bridge [attic' and 'a*b?'. Plus, in a subprocess built with a scheduling point before EVERY statement of hc's packages (textual insertion through go build -overlay): every interleaving with at most 1 (thorough 2) preemptions of pairs of operations on disjoint objects — and, where the property is about served requests, of pairs of handlers on two verified connections of one accessory touching different characteristics — each side must observe exactly what it observes when the two run one after the other (module-level mutable state is what makes them differ).",
+		Rule:  "(a) every history of length 3 (quick) / 4 (thorough) after an initial start over {restart with the same accessories, restart with changed values only, restart with an added accessory, restart with another setup code, real pair-setup of a new controller, remove a pairing, add a new pairing and add an existing pairing again through /pairings on a verified connection, application value changes} on one storage directory with the real transport; after EVERY event the advertised TXT records and the store are compared with the reference model: device id and long-term key constant (a stored controller still verifies against the original accessory key), pairings = model set, c# +1 exactly when the structure differs from the previous run, sf=1 ⇔ no controller pairing. plus a sweep over 240 structurally different accessory sets (restart same ⇒ c# unchanged, other ⇒ +1, again ⇒ unchanged). (b) ALL 10^8 eight-digit codes and all ≈12 million strings of length ≤9 over {0,9,a,-,space,non-ASCII digit}: ValidatePin accepts exactly the non-trivial eight-digit codes and formats XXX-XX-XXX; for all 10^8 codes (category 5, IP flag) and for all 256 categories × 16 flag sets × 7 setup ids × 7 boundary codes an independent base-36 decoder recovers code, category, flags and setup id from XHMURI. states = restart histories executed The alphabet also has the removal of a pairing that is not stored; the value-only restart gives a first value to a readable characteristic that had none; every history of length 3 over {restart same, restart with other values, pair-setup of a controller whose identifier is the empty string, remove pairing, restart after the files 'version' and 'configHash' were lost (configuration number then not judged)}; a transport is created exactly for the Config.Pin values ValidatePin accepts and uses that code (16 spellings); a start on storages provisioned elsewhere (device id in lower, upper and mixed case with its key pair and one pairing) keeps id and key and lets the paired controller verify; every history of length 2 over four symbols is repeated in storage directories named 'Lamp [1]', 'Bridge [attic' and 'a*b?'. Plus, in a subprocess built with a scheduling point before EVERY statement of hc's packages (textual insertion through go build -overlay): every interleaving with at most 1 (thorough 2) preemptions of pairs of operations on disjoint objects — and, where the property is about served requests, of pairs of handlers on two verified connections of one accessory touching different characteristics — each side must observe exactly what it observes when the two run one after the other (module-level mutable state is what makes them differ).",
 		Run:   c20Run,
 		Replay: func(c *fw.Ctx, raw json.RawMessage) {
 			var cc c20CodeCase
 			if json.Unmarshal(raw, &cc) == nil && cc.Kind != "" {
 				c.Eval(1)
 				c.State(1)
-				if cc.Kind == "pin" {
+				if cc.Kind == "configured" {
+					c20ConfiguredCodes(c)
+				} else if cc.Kind == "pin" {
 					c20Pin(c, cc.Code, cc.Sub)
 				} else {
 					c20URI(c, cc.Code, cc.ID, uint8(cc.Cat), cc.Flag, cc.Sub)
